@@ -1,7 +1,7 @@
 // C03 cv_xv: condition_variable with mutex and spinlock under the controlled multi-vCPU scheduler.
 // ops (per photon thread):  W single-shot waiter (lock; wait(lock); unlock)   P predicate waiter (while(!pred) wait)
 //   T single-shot timed waiter (40us)   N lock;pred=1;unlock;notify_one   A lock;pred=1;unlock;notify_all
-//   n lock;pred=1;notify_one;unlock (inside)   a ... notify_all inside      u notify_one without touching the lock   y yield
+//   h lock;pred=1;notify_one;yield;yield;unlock   n lock;pred=1;notify_one;unlock (inside)   a ... notify_all inside      u notify_one without touching the lock   y yield
 #define protected public
 #define private public
 #include <photon/thread/thread.h>
@@ -85,8 +85,9 @@ static void body(mvprog::PT& p) {
             UNLOCK();
             continue;
         }
-        // notifiers
-        bool inside = (op == 'n' || op == 'a'), all = (op == 'A' || op == 'a');
+        // notifiers ('h': notify inside the lock and keep holding it across two yields, so that the woken waiter's re-lock is contended)
+        bool hold = (op == 'h');
+        bool inside = (op == 'n' || op == 'a' || hold), all = (op == 'A' || op == 'a');
         int expect = 0;
         if (op != 'u') { LOCK(); G->pred = true; expect = snapshot(all); if (!inside) UNLOCK(); }
         else expect = snapshot(false, true);
@@ -99,6 +100,7 @@ static void body(mvprog::PT& p) {
             if (t) for (auto& q : G->prog.pts) if (q.th == t) G->woken[q.idx] = true;
             if (!t && expect > 0 && op != 'u') pmc_violation("notify_one-null", "notify_one() returned null although %d waiter(s) were waiting when the notifier took the lock", expect);
         }
+        if (hold) { thread_yield(); mv_yield("holding after notify"); thread_yield(); }
         if (inside) UNLOCK();
         G->log += char('a' + me); G->log += op;
         p.result += op;
@@ -157,6 +159,9 @@ static const PmcConfig CFG[] = {
     {"m:pW,pW,pNpN", 3, {0,0}, {0,0}, {0,0}, {0,0}, "one vCPU, every arrival order"},
     {"s:pW,pW,pA",   3, {0,0}, {0,0}, {0,0}, {0,0}, ""},
     {"m:pT,pW,pN:tdev", 3, {0,0}, {1,2}, {0,0}, {0,0}, "one vCPU: timeout vs notify in every order"},
+    {"m:pW,pT,ph:tdev", 3, {0,0}, {1,2}, {0,0}, {0,0}, "one vCPU: the woken waiter re-locks a held mutex while another waiter times out (errno is per vCPU)"},
+    {"m:W,T|h:tdev",  3, {1,1}, {1,1}, {0,0}, {2,2}, "same across vCPUs"},
+    {"m:pW,pW,ph",    3, {0,0}, {0,0}, {0,0}, {0,0}, ""},
     {"m:pW,pP,pnpa", 2, {0,0}, {0,0}, {0,0}, {0,0}, ""},
     {"m:W|u",        2, {1,2}, {0,0}, {0,0}, {0,0}, "notification without the lock"},
     {"s:W,W|a",      2, {1,2}, {0,0}, {0,0}, {0,0}, ""},
